@@ -669,9 +669,16 @@ class EmptyStreamReader(StreamReader):  # lgtm [py/missing-call-to-init]
     async def readany(self) -> bytes:
         return b""
 
+    def iter_chunks(self) -> ChunkTupleAsyncStreamIterator:
+        self._read_eof_chunk = False  # a new reader starts at the beginning
+        return super().iter_chunks()
+
     async def readchunk(self) -> tuple[bytes, bool]:
-        if not self._read_eof_chunk:
-            self._read_eof_chunk = True
+        # EMPTY_PAYLOAD is shared by every body-less message of the process:
+        # whatever is remembered here must not keep a later reader from ever
+        # seeing the end of its stream (iter_chunks() would spin for ever).
+        self._read_eof_chunk = not self._read_eof_chunk
+        if self._read_eof_chunk:
             return (b"", False)
 
         return (b"", True)
